@@ -402,7 +402,7 @@ func (d Driver) Run(c *core.Ctx) error {
 		return nil
 	}
 	// 1. model level: the spec's own sanity on the small space
-	c.TLC(tlc.Opts{Module: "KnuthPlass", Config: cfg("exh", c.Pick(3, 4), 0, 3, c.Pick(8, 9), "std", true), Coverage: c.Thorough()}, true)
+	c.TLC(tlc.Opts{Module: "KnuthPlass", Config: cfg("exh", c.Pick(3, 4), 0, 3, c.Pick(8, 9), "std", true), Coverage: c.Thorough(), Timeout: 30 * time.Minute}, true)
 
 	// 2. spec -> code
 	var nontrivial, ties, relax, feas int64
